@@ -17,6 +17,12 @@ HERE = os.path.dirname(os.path.dirname(os.path.abspath(__file__)))
 
 def main():
     seed, base, props = sys.argv[1], sys.argv[2], sys.argv[3:]
+    # the checks mirror /repo's HEAD (every repaired defect included): a change is judged on HEAD whenever its patch still applies
+    # there, so that everything reported is due to the change; otherwise on the commit it was written against
+    patch = os.path.abspath(os.path.join(seed, "patch.diff"))
+    if subprocess.run(["git", "-C", "/repo", "apply", "--check", patch], stdout=subprocess.DEVNULL, stderr=subprocess.DEVNULL).returncode == 0:
+        base = subprocess.run(["git", "-C", "/repo", "rev-parse", "--short", "HEAD"], stdout=subprocess.PIPE, text=True).stdout.strip()
+    print("base", base)
     wt = tempfile.mkdtemp(prefix="seedwt_", dir="/tmp")
     os.rmdir(wt)
     subprocess.run(["git", "-C", "/repo", "worktree", "add", "-q", "--detach", wt, base], check=True)
@@ -43,6 +49,7 @@ def main():
                         pass
     finally:
         subprocess.run(["git", "-C", "/repo", "worktree", "remove", "--force", wt])
+    res["_base"] = base
     print(json.dumps(res))
 
 
